@@ -18,7 +18,10 @@ if novel:
     EXTRA += '''     Earlier rounds of this exercise already produced the plainer kinds of change: off-by-one at block / superblock /
      sample boundaries, dropped or weakened validity checks, truncating integer conversions, `#[serde(skip)]` on a cached
      field, thread-local or lazily filled caches, overridden iterator methods (nth, fold), mishandled size hints, bound
-     checks rewritten in another unit that overflow. Look for kinds of bug that are NOT on that list.\n'''
+     checks rewritten in another unit that overflow, hand-written Clone impls whose clone_from forgets a field, fixed-size
+     stack buffers sized for 64-bit symbols, custom serde formats with colliding escape values, debug-only assertions that
+     are wrong in a corner, process-wide statics or try_lock fallbacks in queries. Look for kinds of bug that are NOT on
+     that list.\n'''
 for l in open('/verif/properties.jsonl'):
     p = json.loads(l)
     if p['id'] == pid:
